@@ -1,5 +1,7 @@
 import Proofs.SC
 import Proofs.Rank
+import Proofs.EncI
+import Proofs.ScI
 import Kaira.Rank5G
 import Generated.C11
 import Mathlib.Tactic.Linarith
@@ -149,6 +151,13 @@ theorem polar_transform_eq_kron : ∀ (m : Nat) (u : List Bool), u.length = 2 ^ 
         intro l n hl; exact xorL_replicate_false l n hl
       exact (this _ _ lb).symm
 
+/-- **the `polar_i` option is bit-reversal interleaving**: entry `p` of the interleaved transform is
+entry `bitrev_m(p)` of `u·F^{⊗m}` — every m, every input of length 2^m -/
+theorem interleaved_is_bitreversal (m : Nat) (u : List Bool) (h : u.length = 2 ^ m) (p : Nat) (hp : p < 2 ^ m) :
+    (encI m u).getD p false = (vecMat (2 ^ m) u (kron m)).getD (Kaira.Dist.revBits m p) false := by
+  rw [← polar_transform_eq_kron m u h]
+  exact EncIProofs.encI_eq_bitrev m u h p hp
+
 /-! ## successive cancellation -/
 
 theorem clip_neg_iff (c v : ℚ) (hc : 0 < c) : clip c v < 0 ↔ v < 0 := by
@@ -228,6 +237,18 @@ theorem sc_decodes_clean (c : ℚ) (hc : 0 < c) (fz : Bool) (m : Nat) (info msg 
   unfold scDecode polarEncode at *
   simp only [Bool.false_eq_true, if_false] at *
   rw [sc_clean (minSumF c) (minSum_signLaw c hc) fz m (place fz info msg) info y
+    (by rw [length_place, hi]) (place_frozen fz info msg) hy]
+  exact extract_place fz info msg hm
+
+/-- the same for the interleaved (`polar_i`) variant: SC decoding of any noise-free LLR vector of the
+interleaved encoding returns the message -/
+theorem sc_decodes_clean_interleaved (c : ℚ) (hc : 0 < c) (fz : Bool) (m : Nat) (info msg : List Bool) (y : List ℚ)
+    (hi : info.length = 2 ^ m) (hm : msg.length = (info.filter id).length)
+    (hy : Consistent y (polarEncode m true fz info msg)) :
+    scDecode m true (minSumF c) fz info y = msg := by
+  unfold scDecode polarEncode at *
+  simp only [if_true] at *
+  rw [ScIProofs.scI_clean (minSumF c) (minSum_signLaw c hc) fz m (place fz info msg) info y
     (by rw [length_place, hi]) (place_frozen fz info msg) hy]
   exact extract_place fz info msg hm
 
